@@ -210,7 +210,7 @@ func Discharge(obls []*Obligation, timeoutS int, confirm bool, workers int) {
 			for ob := range ch {
 				if ob.Expect == "sat" {
 					// reachability (vacuity guard): only a refutation is a failure
-					r := runOne(solverSpecs[0], "(set-option :smt.mbqi false)\n"+ob.Query, 5)
+					r := runOne(solverSpecs[0], "(set-option :smt.mbqi false)\n"+ob.Query, 3)
 					if r.Status != "unsat" {
 						r.Output = "reach: " + r.Status
 						r.Status = "sat"
